@@ -338,7 +338,7 @@ class Script:
                     return {'exc': r[7:], 'calls': n}
                 if time.time() > dl:
                     return {'ret': False, 'calls': n}
-                time.sleep(0.02)
+                time.sleep(op.get('gap', 0.02))
         if o == 'server_stop':
             srv = self.d.server
             how = op['how']
